@@ -114,6 +114,8 @@ pub mod verif_hooks {
         pub clock: Option<Clock>,
         pub clock_reads: u64,
         pub clock_ns: u64,
+        // limits reported by TimeStrategy::new (hook H5), most recent last
+        pub limits: Vec<(std::time::Duration, std::time::Duration)>,
         // responses
         pub log: Option<Log>,
         pub sink: Option<Sink>,
@@ -176,6 +178,22 @@ pub mod verif_hooks {
         if over {
             panic!("verif: node budget exceeded (search does not terminate)");
         }
+    }
+
+    /// Called by `TimeStrategy::new` with the limits it computed.
+    pub fn limits(soft: std::time::Duration, hard: std::time::Duration) {
+        ST.with(|s| {
+            let mut s = s.borrow_mut();
+            if s.limits.len() < 4 {
+                s.limits.push((soft, hard));
+            } else {
+                s.limits[3] = (soft, hard);
+            }
+        });
+    }
+
+    pub fn take_limits() -> Vec<(std::time::Duration, std::time::Duration)> {
+        ST.with(|s| std::mem::take(&mut s.borrow_mut().limits))
     }
 
     pub fn clock_read() -> Option<u64> {
